@@ -4,9 +4,10 @@ from .manifest_data import NOTE_COMMON
 
 CLAIM = {
   "technique": "Coq model of RawDecoder.Decode with an invariant proof (consumed = emitted segments ++ pending) by induction over records and sequences; model tied to raw.go by "
-               "differential execution; segment lengths checked inside Coq against the independent record grammar (Model/Wire.v); Go oracle for agreement with the full decoder",
-  "text": "Partial proof. Proved for every byte string: the segments concatenate to exactly the bytes reported as consumed (a prefix of them when the decoder stops with an error). "
-          "Decided per run, not yet by theorem: each segment has the length the record grammar prescribes (Wire.segment_stream on the same bytes), and whenever the full decoder "
+               "differential execution; record-by-record equivalence proof between the raw decoder model and the independent record grammar (Model/Wire.v), which is also evaluated inside Coq on every case; Go oracle for agreement with the full decoder",
+  "text": "Partial proof. Proved for every byte string: the segments concatenate to exactly the bytes reported as consumed (a prefix of them when the decoder stops with an error); "
+          "and (below 4 GiB) each segment has the length the independent record grammar prescribes -- whenever the raw decoder accepts and Wire.segment_stream segments the "
+          "stream at all, both give the same segments (C16_lengths). Decided per run, not yet by theorem: whenever the full decoder "
           "(checksum ignored) accepts, the raw decoder accepts and both agree on the number of sequences and the ordered series of definitions and data messages (kind, local "
           "number, header byte, definition contents, architecture).",
   "note": NOTE_COMMON + " io.ReadFull over a contiguous reader is modelled (next k bytes / EOF / ErrUnexpectedEOF). Bounds of the 130051-byte array follow from bytes < 256 (not proved here)."}
